@@ -118,6 +118,10 @@ pub struct RunCtx {
     pub script_pos: usize,
     pub cur: usize,
     pub stay_run: u32,
+    /// how long the running task may stay before another runnable one is forced: drawn anew from [S/2, S] (S = the
+    /// starvation bound) whenever the running task changes -- a fixed length would let a spinning task whose loop has a fixed
+    /// period be descheduled at the same phase of its loop every time (e.g. always while it holds a spin lock)
+    pub burst_limit: u32,
     pub waiting: [u32; MAX_TASKS],
     pub frozen: [u32; MAX_TASKS],
     pub preempt_points: Vec<u64>,
@@ -128,6 +132,8 @@ pub struct RunCtx {
     // ---- per-task operation accounting (stall verdicts)
     pub op_steps: [u64; MAX_TASKS],
     pub op_name: [&'static str; MAX_TASKS],
+    /// where (hook site in the code under test / harness) each task was last seen
+    pub last_site: [Option<&'static Location<'static>>; MAX_TASKS],
     pub suspended_by_scenario: u32,
     /// per task: wake-ups it delivered to a harness waker / wake attempts of it that found no waker registered
     pub task_wakes: [u32; MAX_TASKS],
@@ -170,6 +176,7 @@ impl RunCtx {
             script_pos: 0,
             cur: 0,
             stay_run: 0,
+            burst_limit: 0,
             waiting: [0; MAX_TASKS],
             frozen: [0; MAX_TASKS],
             preempt_points,
@@ -179,6 +186,7 @@ impl RunCtx {
             script_mismatch: 0,
             op_steps: [0; MAX_TASKS],
             op_name: [""; MAX_TASKS],
+            last_site: [None; MAX_TASKS],
             suspended_by_scenario: 0,
             task_wakes: [0; MAX_TASKS],
             task_wake_misses: [0; MAX_TASKS],
@@ -274,6 +282,10 @@ pub fn intern(s: String) -> &'static str {
 pub fn op_mark(name: &'static str) {
     with_ctx(|c| {
         let t = c.cur;
+        if c.trace_on && c.trace.len() < 400 && std::env::var_os("VERIF_TRACE_OPS").is_some() {
+            let line = if name.is_empty() { format!("[{:>5}|t{}] op end: {} ({} own points)", c.steps, t, c.op_name[t], c.op_steps[t]) } else { format!("[{:>5}|t{}] op begin: {}", c.steps, t, name) };
+            c.trace.push(line);
+        }
         c.op_steps[t] = 0;
         c.op_name[t] = name;
     });
@@ -317,6 +329,14 @@ impl RunCtx {
                 }
             }
             self.aborted = Some(format!("step_cap: run exceeded {} scheduling points (task {} in `{}`)", self.spec.step_cap, who, self.op_name[who]));
+            if self.trace_on {
+                for i in 0..MAX_TASKS {
+                    if let Some(l) = self.last_site[i] {
+                        let line = format!("[{:>5}|t{}] at the step cap: last seen at {}:{} inside `{}` ({} own points)", self.steps, i, l.file(), l.line(), self.op_name[i], self.op_steps[i]);
+                        self.trace.push(line);
+                    }
+                }
+            }
             return true;
         }
         false
@@ -327,6 +347,7 @@ impl RunCtx {
         if self.aborted.is_some() {
             return Act::None;
         }
+        self.last_site[self.cur] = Some(loc);
         if self.account_step() {
             return Act::Abort;
         }
@@ -372,7 +393,10 @@ impl RunCtx {
                     }
                     Policy::Script => unreachable!(),
                 };
-                if stay && self.stay_run < self.spec.starvation {
+                if self.burst_limit == 0 {
+                    self.burst_limit = self.spec.starvation / 2 + self.rng.below(self.spec.starvation as u64 / 2 + 1) as u32;
+                }
+                if stay && self.stay_run < self.burst_limit {
                     self.stay_run += 1;
                     self.decisions.push(self.cur as u8);
                     for (i, w) in self.waiting.iter_mut().enumerate() {
@@ -489,6 +513,7 @@ impl RunCtx {
                 self.mix_sig(0x9E37 ^ ((current.unwrap_or(15) as u64) << 8) ^ chosen as u64);
             }
             self.stay_run = 0;
+            self.burst_limit = 0;
         }
         self.pending_site = 0;
         self.cur = chosen;
@@ -554,6 +579,8 @@ fn hook_spin_hint(loc: &'static Location<'static>) {
                     if ctx.aborted.is_some() {
                         return Act::None;
                     }
+                    let t = ctx.cur;
+                    ctx.last_site[t] = Some(loc);
                     if ctx.account_step() {
                         return Act::Abort;
                     }
